@@ -5,6 +5,7 @@ package app
 import (
 	"encoding/json"
 	"fmt"
+	"strings"
 	"testing"
 	"testing/synctest"
 	"time"
@@ -72,7 +73,18 @@ func c05Monitor(m *vk.Meta, in mgrIn, out mgrOut) {
 				viol("an automatic failover is filed only if automatic failover is enabled", "failover: false")
 			}
 			if hasMaint {
-				viol("an automatic failover is filed only if no maintenance mode (full or light) is active", st.Tree[pathMaintenance])
+				unread := false
+				for _, e := range st.Trans {
+					if e.Kind == "DcsGet" && e.Arg == pathMaintenance && e.Resp != "(RErr ENotFound)" && strings.HasPrefix(e.Resp, "(RErr") {
+						unread = true
+					}
+				}
+				v := map[string]any{"clause": "an automatic failover is filed only if no maintenance mode (full or light) is active", "input": in,
+					"detail": fmt.Sprintf("iteration %d: %s", k, st.Tree[pathMaintenance])}
+				if unread && !st.Files["maintenance"] {
+					v["signature"] = map[string]any{"cause": "maintenance record unreadable in this iteration and no marker file: treated as no maintenance"}
+				}
+				m.Violations = append(m.Violations, v)
 			}
 			if hasSwitch {
 				viol("an automatic failover is filed only if no other switch request is active", st.Tree[pathCurrentSwitch])
